@@ -126,6 +126,25 @@ Section C02.
       = v 0 x +! dt *! sumf (fun j => (Q m j -! QT m j) *! f j x) 1 M +! tauval tauv m x.
   Proof. exact (fun QQ Qx QT acc => verlet_block_form kO kI kadd kmul ksub kopp Rth M dt t0 nodes Q QQ Qx QT acc). Qed.
 
+  (* verlet.compute_end_point: the last node exactly when configured so, otherwise the full Picard evaluation with the
+     weights and qQ (+ tau); with qQ = w^T Q (validated on the real table every run) the position end value is the
+     second-order form of u0 + dt sum_n w_n F_n, i.e. x0 + dt sum_n w_n (v0 + dt sum_j Q_nj f_j) *)
+  Theorem C02_verlet_end_point_form : forall (wts qQ : nat -> K) rin dcu (p v f : nat -> V) taup tauv,
+    let e := verlet_end_point kadd kmul M dt wts qQ rin dcu p v f taup tauv in
+    (rin && negb dcu = true -> e = (p M, v M)) /\
+    (rin && negb dcu = false -> forall x,
+       fst e x = p 0 x +! dt *! sumf wts 1 M *! v 0 x +! dt *! dt *! sumf (fun m => qQ m *! f m x) 1 M +! tauval taup M x /\
+       snd e x = v 0 x +! dt *! sumf (fun m => wts m *! f m x) 1 M +! tauval tauv M x).
+  Proof. exact (verlet_end_point_form kO kI kadd kmul ksub kopp Rth M dt). Qed.
+
+  Theorem C02_verlet_end_point_second_order_form : forall (wts qQ : nat -> K) dcu rin (p v f : nat -> V) taup tauv,
+    (forall m, qQ m = sumf (fun n => wts n *! Q n m) 1 M) ->
+    rin && negb dcu = false ->
+    let e := verlet_end_point kadd kmul M dt wts qQ rin dcu p v f taup tauv in
+    forall x, fst e x = p 0 x +! dt *! sumf (fun n => wts n *! (v 0 x +! dt *! sumf (fun j => Q n j *! f j x) 1 M)) 1 M
+                        +! tauval taup M x.
+  Proof. exact (verlet_end_point_second_order_form kO kI kadd kmul ksub kopp Rth M dt Q). Qed.
+
   Theorem C02_integrate_is_dtQF : forall np (f : nat -> nat -> V) m x,
     integrate kO kadd kmul M dt Q np f m x = dt *! sumf (fun j => Q m j *! ftot kO kadd np (f j) x) 1 M.
   Proof. exact (integrate_is_dtQF kO kI kadd kmul ksub kopp Rth M dt Q). Qed.
@@ -153,6 +172,8 @@ Print Assumptions C02_multi_implicit_two_stage_form.
 Print Assumptions C02_runge_kutta_stage_form.
 Print Assumptions C02_imex_mass_matrix_form.
 Print Assumptions C02_verlet_block_form.
+Print Assumptions C02_verlet_end_point_form.
+Print Assumptions C02_verlet_end_point_second_order_form.
 Print Assumptions C02_integrate_is_dtQF.
 Print Assumptions C02_end_point_copy.
 Print Assumptions C02_end_point_quadrature.
